@@ -42,11 +42,19 @@ RXV_SUBCOMMAND(c15) {
 
 	// a cache with a short and one with a long key (std::string with heap storage is copied into the VM)
 	const std::string shortKey = "k15", longKey = "a key that is longer than the small-string buffer of std::string";
+	// a creating call that returns NULL although none of its memory requests failed breaks the success path of C15 (the harness
+	// cannot go on without its fixture, so it is reported and the shard ends); a real allocation failure of the host is exit 2
+	auto setupFailed = [&](const char* what, size_t ev0) {
+		for (size_t i = ev0; i < ip::eventCount(); ++i) if (ip::eventAt(i).result != 0) R.harnessFail(std::string("setup ") + what + ": the host refused memory");
+		R.violation("C15:faultfree:creating-call-returned-null", std::string("{\"call\":\"") + what + " (fixture set-up, no fault injected, every underlying request succeeded)\"}");
+	};
+	size_t evSetup = ip::eventCount();
 	randomx_cache* cacheS = api::allocCache(RANDOMX_FLAG_JIT); randomx_cache* cacheL = api::allocCache(RANDOMX_FLAG_DEFAULT);
-	if (!cacheS || !cacheL) R.harnessFail("setup caches");
+	if (!cacheS || !cacheL) { setupFailed("randomx_alloc_cache", evSetup); if (cacheS) api::releaseCache(cacheS); if (cacheL) api::releaseCache(cacheL); return 0; }
 	api::initCache(cacheS, shortKey.data(), shortKey.size()); api::initCache(cacheL, longKey.data(), longKey.size());
+	evSetup = ip::eventCount();
 	randomx_dataset* dsForVm = api::allocDataset(RANDOMX_FLAG_DEFAULT); // only bound, never read: stays virtual
-	if (!dsForVm) R.harnessFail("setup dataset");
+	if (!dsForVm) { setupFailed("randomx_alloc_dataset(RANDOMX_FLAG_DEFAULT)", evSetup); api::releaseCache(cacheS); api::releaseCache(cacheL); return 0; }
 	const uint8_t probeInput[] = "C15 follow-up";
 	std::array<uint8_t, 32> refS[2], refL[2];
 	for (int v2 = 0; v2 < 2; ++v2) {
